@@ -2444,3 +2444,7 @@ mod tests {
         assert!((source.clock_wander - 1e-8).abs() < 1e-12);
     }
 }
+
+#[cfg(all(test, pendulum_project_ntpd_rs_verif))]
+#[path = "/verif/harness/ntp-proto/hook_algorithm__kalman__source.rs"]
+mod verif_hook;
